@@ -321,6 +321,30 @@ class Canon:
             if isinstance(v, (tuple, list)) and _plain_table(v):
                 lit = lambda x: ast.Constant(x) if not isinstance(x, (tuple, list)) else (ast.List if isinstance(x, list) else ast.Tuple)([lit(y) for y in x], ast.Load())
                 return lit(v)
+        if isinstance(e, ast.Attribute) and e.attr == "size" and isinstance(e.value, ast.Name) and isinstance(getattr(e, "ctx", None), ast.Load) and self.assign_of is not None:
+            # S = struct.Struct(fmt) at module level: S.size is struct.calcsize(fmt), a number
+            a_ = self.assign_of(e.value)
+            if isinstance(a_, ast.Call) and norm(a_.func) in ("struct.Struct", "Struct") and len(a_.args) == 1 and isinstance(a_.args[0], ast.Constant) and isinstance(a_.args[0].value, (str, bytes)) and not a_.keywords:
+                import struct as _struct
+                try:
+                    return ast.Constant(_struct.calcsize(a_.args[0].value))
+                except _struct.error:
+                    pass
+        if isinstance(e, ast.Subscript) and isinstance(e.slice, ast.Slice) and e.slice.lower is None and _is_minus_one(e.slice.step) and isinstance(e.value, ast.Call) \
+                and norm(e.value.func) == "struct.pack" and len(e.value.args) == 2 and _single_field(e.value.args[0]) is not None:
+            # struct.pack('>Q', v)[::-1] is struct.pack('<Q', v); [:u:-1] keeps the first n-1-u bytes of that
+            fmt_, n_ = _single_field(e.value.args[0])
+            flipped = ast.Call(e.value.func, [ast.Constant(_flip(fmt_)), e.value.args[1]], [])
+            if e.slice.upper is None:
+                return flipped
+            if isinstance(e.slice.upper, ast.Constant) and isinstance(e.slice.upper.value, int) and 0 <= e.slice.upper.value < n_:
+                return ast.Subscript(flipped, ast.Slice(None, ast.Constant(n_ - 1 - e.slice.upper.value), None), ast.Load())
+        if isinstance(e, ast.Call) and norm(e.func) == "struct.unpack" and len(e.args) == 2 and not e.keywords and _single_field(e.args[0]) is not None \
+                and any(isinstance(x, ast.Subscript) and isinstance(x.slice, ast.Slice) and _is_minus_one(x.slice.step) for x in ast.walk(e.args[1])):
+            # struct.unpack('>Q', b'\0\0' + x[::-1]) is struct.unpack('<Q', x + b'\0\0'): one field read from the reversed bytes
+            rv_ = _reversed_bytes(e.args[1])
+            if rv_ is not None:
+                return self._fold(ast.Call(e.func, [ast.Constant(_flip(_single_field(e.args[0])[0])), rv_], []))
         if isinstance(e, ast.JoinedStr):
             # f"{a}_x{b:02x}" is "%s_x%02x" % (a, b): one form for both spellings of string formatting
             fmt, vals, ok = "", [], True
@@ -668,6 +692,34 @@ class Canon:
         if isinstance(e.left, ast.BinOp) and isinstance(e.left.op, ast.RShift) and isinstance(e.right, ast.Constant) and isinstance(e.left.right, ast.Constant):
             return ast.BinOp(e.left.left, ast.RShift(), ast.Constant(e.left.right.value + e.right.value))
         return e
+
+
+def _is_minus_one(x):
+    return (isinstance(x, ast.Constant) and x.value == -1) or (isinstance(x, ast.UnaryOp) and isinstance(x.op, ast.USub) and isinstance(x.operand, ast.Constant) and x.operand.value == 1)
+
+
+def _single_field(fmt):
+    """(format, size) of a struct format with explicit byte order and ONE integer field, else None"""
+    if isinstance(fmt, ast.Constant) and isinstance(fmt.value, str) and len(fmt.value) == 2 and fmt.value[0] in "<>" and fmt.value[1] in "BHLQIbhlqi":
+        import struct as _st
+        return fmt.value, _st.calcsize(fmt.value)
+    return None
+
+
+def _flip(fmt):
+    return ("<" if fmt[0] == ">" else ">") + fmt[1:]
+
+
+def _reversed_bytes(e):
+    """the expression for e[::-1] with the reversals pushed inward and cancelled, or None"""
+    if isinstance(e, ast.Subscript) and isinstance(e.slice, ast.Slice) and e.slice.lower is None and e.slice.upper is None and _is_minus_one(e.slice.step):
+        return e.value
+    if isinstance(e, ast.Constant) and isinstance(e.value, bytes):
+        return ast.Constant(e.value[::-1])
+    if isinstance(e, ast.BinOp) and isinstance(e.op, ast.Add):
+        a, b = _reversed_bytes(e.right), _reversed_bytes(e.left)
+        return None if a is None or b is None else ast.BinOp(a, ast.Add(), b)
+    return None
 
 
 # ------------------------------------------------------------------ atoms
@@ -3447,6 +3499,14 @@ def _compare_summaries(code, ref, near=0.7):
             unmatched_code.remove(same_base[0])
             details.append(("order", k[0], k[1], same_base[0][1], 1.0))
             continue
+        if k[0] == "signature" and k[1].startswith("default ") and " = " in k[1]:
+            # the default of the SAME parameter: the two correspond, whatever their values look like
+            pre_ = k[1].split(" = ", 1)[0] + " = "
+            twin_ = [k2 for k2 in unmatched_code if k2[0] == "signature" and k2[1].startswith(pre_)]
+            if twin_:
+                unmatched_code.remove(twin_[0])
+                details.append(("differs", k[0], k[1], twin_[0][1], 1.0))
+                continue
         best, bk = 0.0, None
         tk = _tokens(k[1])
         for k2 in unmatched_code:
